@@ -5,6 +5,8 @@ from contracts import c10_codec
 
 
 def build(chk, ip, runner):
+    import os
+    ip.repo.add_module('rt_codec', os.path.join(os.path.dirname(os.path.dirname(os.path.abspath(__file__))), 'contracts', 'compose', 'rt_codec.py'))
     chk.design_ref = 'DESIGN.md section 5 C10'
     chk.lemmas = list(c10_codec.LEMMAS)
     chk.units = c10_codec.units()
